@@ -261,7 +261,13 @@ def run_samples(case):
                             default_combos={"a": case["a"], "b": case["b"]})
         bkw = {case["batch"][0]: case["batch"][1]} if case.get("batch") else {}
         with under_test("sample crop"):
-            crop = sampler.Crop(name="c4s", parent_dir=root, **bkw)
+            if case.get("shuffle"):
+                import xyzpy.gen.cropping as cropping
+                crop = cropping.Crop(farmer=sampler, name="c4s",
+                                     parent_dir=root, shuffle=case["shuffle"],
+                                     **bkw)
+            else:
+                crop = sampler.Crop(name="c4s", parent_dir=root, **bkw)
             crop.sow_samples(case["n"], verbosity=0)
             B = len(crops.batch_ids(root, "c4s"))
             ids = [i % B + 1 for i in case["order"]]
@@ -309,10 +315,13 @@ def history(draw, max_settings=40):
         used = set(cs["args"])
         if draw(st.sampled_from([False, False, True])):
             rest = [n for n in gens.ARG_NAMES if n not in used]
-            a = draw(st.sampled_from(rest))
-            case["subgrid"] = [[a, draw(gens.arg_values(1, 3))]]
+            k = draw(st.sampled_from([1, 2, 2]))
+            subs = draw(st.lists(st.sampled_from(rest), min_size=k,
+                                 max_size=k, unique=True))
+            case["subgrid"] = [[a, draw(gens.arg_values(1, 3))]
+                               for a in subs]
             case["sub_spelling"] = draw(st.sampled_from(["pairs", "dict"]))
-            used.add(a)
+            used |= set(subs)
     N = n_settings(case)
     consts = draw(gens.constants(1))
     case["constants"] = {k: v for k, v in consts.items() if k not in used}
@@ -366,7 +375,8 @@ def samples(draw):
     n = draw(st.integers(1, 12))
     case = {"a": a, "b": b, "n": n, "np_seed": draw(st.integers(0, 2**31)),
             "order": draw(st.lists(st.integers(0, 20), max_size=5)),
-            "reload": draw(st.booleans())}
+            "reload": draw(st.booleans()),
+            "shuffle": draw(st.sampled_from([False, True, 9]))}
     bt = draw(st.sampled_from(["default", "batchsize", "num_batches"]))
     if bt != "default":
         case["batch"] = [bt, draw(st.integers(1, n + 1))]
